@@ -12,6 +12,9 @@
  *                                          driver's serializer / shallow-copy callbacks), the
  *                                          j-th allocation counted from there fails too
  *                                   k^L    …and every request of more than L bytes fails
+ *                                   A      every request of the test part (of more than 1 byte) fails: reaches
+ *                                          an allocation whatever its index, also one a fault-free run of an
+ *                                          earlier version never made
  *                 '*' may be followed by ',' and such items
  *
  * operations (d = destination register, empty before; r = container / subject; c = child):
@@ -21,6 +24,10 @@
  *   ap<r>,<c>,<idx>           json_object_array_put_idx
  *   ai<r>,<c>,<idx>           json_object_array_insert_idx
  *   as<r>,<n>                 json_object_array_shrink
+ *   ad<r>,<idx>,<count>       json_object_array_del_idx
+ *   od<r>,<hexkey>            json_object_object_del
+ *   si<r>,<int>  sd<r>,<bits>  sb<r>,<0|1>  ia<r>,<int>
+ *                             json_object_set_int64 / set_double / set_boolean / int_inc (in place)
  *   ss<r>,<hex>               json_object_set_string(r, bytes ++ NUL)
  *   sl<r>,<hex>,<len>         json_object_set_string_len
  *   ns<d>,<hex>               json_object_new_string_len
@@ -402,6 +409,25 @@ static char *exec_op(char *op, int *isfail, int *bad)
 		                  : json_object_array_insert_idx(regs[r], idx, regs[c]);
 		fprintf(res_f, "%d", rc);
 		if (rc == 0) regs[c] = NULL; else *isfail = rc < 0;
+	} else if (OP('a', 'd') && na >= 3) {
+		int rc = json_object_array_del_idx(regs[r], (size_t)strtoull(a[1], NULL, 10), (size_t)strtoull(a[2], NULL, 10));
+		fprintf(res_f, "%d", rc);
+		*isfail = rc < 0;
+	} else if (OP('o', 'd') && na >= 2) {
+		size_t n; unsigned char *k = unhex(a[1], &n); char *key = cstr_of(k, n);
+		(free)(k);
+		if (!regs[r]) { *bad = 1; (free)(key); return res_close(); }
+		json_object_object_del(regs[r], key);
+		(free)(key);
+		fprintf(res_f, "ok");
+	} else if ((OP('s', 'i') || OP('s', 'd') || OP('s', 'b') || OP('i', 'a')) && na >= 2) {
+		int rc;
+		if (op[0] == 'i') rc = json_object_int_inc(regs[r], strtoll(a[1], NULL, 10));
+		else if (op[1] == 'i') rc = json_object_set_int64(regs[r], strtoll(a[1], NULL, 10));
+		else if (op[1] == 'b') rc = json_object_set_boolean(regs[r], atoi(a[1]));
+		else { uint64_t bits = strtoull(a[1], NULL, 16); double dv; memcpy(&dv, &bits, 8); rc = json_object_set_double(regs[r], dv); }
+		fprintf(res_f, "%d", rc);
+		*isfail = rc == 0;
 	} else if (OP('a', 's') && na >= 2) {
 		int rc = json_object_array_shrink(regs[r], atoi(a[1]));
 		fprintf(res_f, "%d", rc);
@@ -587,6 +613,7 @@ static struct outcome run_workload(const char *setup, const char *test, long k, 
 	c0 = xa_count;
 	xa_failed = 0;
 	if (k >= 0) { xa_fail_at = c0 + k; second_j = j2; xa_limit = limit; }
+	if (k == -3) xa_limit = 1;
 	save = NULL;
 	for (i = 0, op = strtok_r(t, ";", &save); op && i < MAXOPS && !oc.bad; op = strtok_r(NULL, ";", &save), i++) {
 		char *pre = state_dump(), *res, *post, *pre_m = NULL, *post_m = NULL; int isfail, bad;
@@ -676,7 +703,9 @@ void run_case(char *rest)
 	printf(" ks=");
 	save = NULL;
 	for (item = strtok_r(ks, ",", &save); item; item = strtok_r(NULL, ",", &save)) {
-		if (strcmp(item, "*") == 0) {
+		if (strcmp(item, "A") == 0) {
+			print_tok("A", run_checked(setup, test, -3, -1, 0), &first);
+		} else if (strcmp(item, "*") == 0) {
 			for (k = 0; k < b.n; k++) {
 				char lab[32];
 				snprintf(lab, sizeof lab, "%ld", k);
